@@ -160,19 +160,28 @@ def worker(ctx, job):
         entries = [e for e in entries if not e[0].endswith("_sync")] if quick else entries
     dest = os.path.join(aux, "dest")
     states = [("pristine", "pristine", "bytes", data)] + list(damage.damages(data, other, exhaustive_limit=64 if not quick else 16, aux_dir=aux))
+    dest_damages = {st_[0] for st_ in states[1:4]} | {st_[0] for st_ in states[-3:]}
     for dname, klass, kind, payload in states:
         damage.apply(cpath, kind, payload, aux)
         res["states"] += 1
         for name, by, rk in entries:
             bufs = bufsizes(n, quick) if rk == "stream" else [0]
-            for buf in bufs:
+            # extractions are also run onto a destination that already exists (longer / same length / shorter than the entry,
+            # other bytes): what the caller then holds at the destination must still be exactly the stored bytes
+            dstates = [None]
+            if rk in ("copy", "hard_link", "reflink") and n <= 1025 and (klass == "pristine" or dname in dest_damages):
+                dstates += ["longer", "same-length", "shorter"]
+            for buf, dstate in [(b_, d_) for b_ in bufs for d_ in dstates]:
                 fsutil.wipe(dest)
+                if dstate is not None:
+                    with open(dest, "wb") as fh_:
+                        fh_.write(ref.gen({"longer": n + 37, "same-length": max(n, 1), "shorter": max(n - 1, 0)}[dstate], 77))
                 rep, delivered = retr.retrieve(srv, cache, name, rk, key=key, sri=sri, dest=dest, buf=buf or 1024)
                 res["evals"] += 1
                 res["transitions"] += 1
-                case = {"flavour": flavour, "algo": algo, "n": n, "damage": dname, "entry": name, "buf": buf}
-                if klass != "pristine":
-                    res["distinct"].add(V.h(flavour, algo, n, dname, name, buf))
+                case = {"flavour": flavour, "algo": algo, "n": n, "damage": dname, "entry": name, "buf": buf, "destination": dstate or "absent"}
+                if klass != "pristine" or dstate is not None:
+                    res["distinct"].add(V.h(flavour, algo, n, dname, name, buf, dstate))
                 if not ("ok" in rep or "err" in rep) or rep.get("panics"):
                     V.violation(res, "checked-read:%s:%s:%s" % (name, klass, classify(rep)), "call did not return a value: %s" % _short(rep),
                                 {"engine": "seqx", "case": case, "reply": rep})
@@ -180,8 +189,8 @@ def worker(ctx, job):
                 if delivered is not None:
                     same = delivered["len"] == want["len"] and delivered["sha256"] == want["sha256"]
                     if not same:
-                        V.violation(res, "checked-read:%s:%s:delivered-wrong-bytes" % (name, klass),
-                                    "%s succeeded on damage %s and delivered %s instead of the %d stored bytes" % (name, dname, delivered, n),
+                        V.violation(res, "checked-read:%s:%s:delivered-wrong-bytes%s" % (name, klass, "" if dstate is None else ":destination-" + dstate),
+                                    "%s succeeded on damage %s (destination before the call: %s) and delivered %s instead of the %d stored bytes" % (name, dname, dstate or "absent", delivered, n),
                                     {"engine": "seqx", "case": case, "reply": rep})
                         V.outcome(res, "WRONG-BYTES")
                         continue
@@ -190,7 +199,7 @@ def worker(ctx, job):
                                     {"engine": "seqx", "case": case, "reply": rep})
                     V.outcome(res, "%s:ok" % klass)
                 else:
-                    if klass in ("pristine", "symlink-identical") and rk != "reflink":
+                    if klass in ("pristine", "symlink-identical") and rk != "reflink" and not (dstate is not None and rk == "hard_link"):
                         V.violation(res, "checked-read:%s:%s:%s" % (name, klass, classify(rep)), "retrieval of intact content failed: %s" % _short(rep),
                                     {"engine": "seqx", "case": case, "reply": rep})
                     V.outcome(res, "%s:err" % klass)
